@@ -36,6 +36,25 @@ int main(void)
 
     demo_open();
 
+    /* honest control: CN followed by an unknown attribute with an ordinary
+       UTF8String value, and one placed before the CN */
+    rdn(&subj, privOid, sizeof(privOid), 0x0C, "before", 6);
+    rdn(&subj, OID_CN, sizeof(OID_CN), 0x0C, "good.example", 12);
+    rdn(&subj, privOid, sizeof(privOid), 0x0C, "some value", 10);
+    mkcert(&subj, NULL, &cert);
+    printf("== honest control: subject = { private attr, CN=good.example, "
+        "private attr }, no SAN ==\n");
+    if (validate(&cert, "good.example", NAME_TYPE_ANY, &ff, 1) != 0 ||
+        validate(&cert, "victim.com", NAME_TYPE_ANY, &ff, 1) == 0 ||
+        !handshake(&cert, "good.example", 0, 1) ||
+        !handshake(&cert, "good.example", 1, 1))
+    {
+        printf("honest control failed\n");
+        return 2;
+    }
+    subj.n = 0;
+    printf("== crafted subject ==\n");
+
     rdn(&subj, OID_O, sizeof(OID_O), 0x0C, "Attacker Ltd", 12);
     rdn(&subj, OID_CN, sizeof(OID_CN), 0x0C, "attacker.example", 16);
 
@@ -79,6 +98,8 @@ int main(void)
             hs12 ? "completed" : "failed", hs13 ? "completed" : "failed");
         return 1;
     }
-    printf("no violation observed\n");
+    printf("OK: hidden name refused (rc=%d); the certificate's real CN "
+        "\"attacker.example\" gives rc=%d; honest certificate with unknown "
+        "DN attributes still authenticates\n", rcVictim, rcOwn);
     return 0;
 }
